@@ -70,6 +70,11 @@ pub const SEGMENT_WISE_IFACE: &str = "up.seg";
 /// the next call", as examples/ping documents).
 pub const LINE_WISE_IFACE: &str = "up.line";
 
+/// Segment-wise AND line-wise: per invocation the handler takes what is available, echoes the complete
+/// lines and returns the unfinished rest as unprocessed bytes, which the caller must feed in again in
+/// front of whatever arrives next.
+pub const SEG_LINE_IFACE: &str = "up.segline";
+
 pub fn leak(s: &str) -> &'static str {
     Box::leak(s.to_string().into_boxed_str())
 }
@@ -83,7 +88,21 @@ impl varlink::Interface for ScriptIface {
     }
     fn call_upgraded(&self, _call: &mut Call, bufreader: &mut dyn BufRead) -> varlink::Result<Vec<u8>> {
         let mut v = Vec::new();
-        if self.name == SEGMENT_WISE_IFACE {
+        if self.name == SEG_LINE_IFACE {
+            // take what is there until at least one record is complete (or the peer is done)
+            let mut buf = [0u8; 4096];
+            loop {
+                match bufreader.read(&mut buf) {
+                    Ok(0) | Err(_) => break,
+                    Ok(n) => {
+                        v.extend_from_slice(&buf[..n]);
+                        if buf[..n].contains(&b'\n') {
+                            break;
+                        }
+                    }
+                }
+            }
+        } else if self.name == SEGMENT_WISE_IFACE {
             if let Ok(b) = bufreader.fill_buf() {
                 v.extend_from_slice(b);
             }
@@ -92,9 +111,15 @@ impl varlink::Interface for ScriptIface {
             let _ = bufreader.read_to_end(&mut v);
         }
         self.seen.lock().unwrap().extend_from_slice(&v);
-        if self.name == LINE_WISE_IFACE {
+        if self.name == LINE_WISE_IFACE || self.name == SEG_LINE_IFACE {
             let cut = v.iter().rposition(|b| *b == b'\n').map(|i| i + 1).unwrap_or(0);
             let rest = v.split_off(cut);
+            if self.name == SEG_LINE_IFACE {
+                // handed back, will be seen again
+                let mut seen = self.seen.lock().unwrap();
+                let keep = seen.len() - rest.len();
+                seen.truncate(keep);
+            }
             if self.echo_up {
                 use std::io::Write;
                 let _ = _call.writer.write_all(b"UP:");
@@ -542,7 +567,7 @@ pub fn socket_configs() -> Vec<SvcCfg> {
         }
     }
     v.push(c);
-    v.push(svc_cfg("v5", &[(LINE_WISE_IFACE, "line-wise upgraded handler"), ("org.example.s", "d")], false));
+    v.push(svc_cfg("v5", &[(LINE_WISE_IFACE, "line-wise upgraded handler"), ("org.example.s", "d"), (SEG_LINE_IFACE, "segment- and line-wise upgraded handler")], false));
     v
 }
 
